@@ -1599,9 +1599,14 @@ impl StreamingQueueCompressor {
 
             if need_sync {
                 // Reached synchronization point (every 50 contigs GLOBALLY)
-                // C++ AGC does: cnt_contigs_in_sample = 0; --sample_priority;
+                // C++ AGC does: cnt_contigs_in_sample = 0; --sample_priority; with ONE global
+                // sample_priority counter. Take the next value of the global counter (instead of
+                // decrementing this sample's own value), so that priorities never increase in push
+                // order: a later sample can then not overtake the sync tokens of an earlier one.
                 if let Some(priority) = priorities.get_mut(&sample_name) {
-                    *priority -= 1;
+                    let mut next_p = self.next_priority.lock().unwrap();
+                    *priority = *next_p;
+                    *next_p -= 1;
                 }
 
                 // Get the NEW priority (after decrement) for sync tokens
@@ -1626,10 +1631,13 @@ impl StreamingQueueCompressor {
                         sample_name: sample_name.clone(),
                         contig_name: String::from("<SYNC>"),
                         data: Vec::new(),
-                        // Use large priority boost to ensure sync tokens are processed BEFORE any contigs
-                        // With +1, contigs with same priority but higher cost were being popped first
-                        // This caused barrier deadlock when some workers exited before others got sync tokens
-                        sample_priority: new_priority + 1_000_000,
+                        // C++ AGC rule (EmplaceManyNoCost at the pre-decrement priority): with cost 0
+                        // the tokens sort after every contig pushed so far (same priority, cost > 0) and
+                        // before every later contig (lower priority), so the batch a round sees is exactly
+                        // the contigs pushed before it - independent of timing. (The former
+                        // `new_priority + 1_000_000` overflowed i32: it panicked in debug builds and
+                        // wrapped to the lowest priority in release builds.)
+                        sample_priority: current_priority,
                         cost: 0,
                         sequence,
                         is_sync_token: true,
